@@ -85,7 +85,10 @@ def directed_search(o, node, arg, rnd, tries):
                 df[arg] = [col.iloc[i] + (i % 3) for i in range(len(df))]
         elif arg.endswith("_bg") and g == "eg":
             # eg is not nested in bg: a partner under 25 covering his own needs forms his own bg
-            df.loc[df["p_id_einstandspartner"] >= 0, "alter"] = [23 if i % 2 == 0 else 40 for i in range(int((df["p_id_einstandspartner"] >= 0).sum()))]
+            npart = int((df["p_id_einstandspartner"] >= 0).sum())
+            if npart == 0:
+                continue
+            df.loc[df["p_id_einstandspartner"] >= 0, "alter"] = [23 if i % 2 == 0 else 40 for i in range(npart)]
             df["geburtsjahr"] = year - df["alter"]
             df.loc[(df["alter"] < 25) & (df["p_id_einstandspartner"] >= 0), "eigenbedarf_gedeckt"] = True
             df.loc[df["alter"] >= 25, "rentner"] = True
@@ -198,7 +201,10 @@ def run(ctx, res):
             if not cands:
                 continue
             o = cands[-1]
-        w = directed_search(o, n, a, rnd, 3 if ctx.tier == "quick" else 10)
+        try:
+            w = directed_search(o, n, a, rnd, 3 if ctx.tier == "quick" else 10)
+        except Exception:  # noqa: BLE001
+            w = None
         if not w:
             w = supplied_search(o, n, a, rnd, 25)
         key = f"levels:{n}<-{a}"
